@@ -151,6 +151,9 @@ AbsMarks(S, wr) ==
                          o  == M.O[nm]
                      IN IF o.w = "n" THEN [M EXCEPT !.good = @ /\ ~x.ok]
                         ELSE IF o.w = "u" THEN [M EXCEPT !.taint = @ \cup {o.path}]
+                        \* a description open for writing on a directory cannot exist
+                        \* (open fails with EISDIR): no opinion on what writing to it does
+                        ELSE IF o.path \in DOMAIN M.F /\ M.F[o.path].kind = "dir" THEN M
                         ELSE IF ~x.ok THEN [M EXCEPT !.good = FALSE]
                         ELSE IF o.path \notin DOMAIN M.F THEN M
                         ELSE IF M.F[o.path].kind # "reg" THEN M
@@ -247,7 +250,9 @@ VerdictFull(rec) ==
   IN IF cs = {} \/ rec.lim = AbsNoLimit THEN [clauses |-> cs, fail |-> sem.fail]
      ELSE LET cand == {[clauses |-> Clauses(rec, AbsList(rec, o[1], o[2])),
                         fail |-> AbsList(rec, o[1], o[2]).fail] : o \in Outcomes(rec)}
-          IN CHOOSE c \in cand : \A d \in cand : Cardinality(c.clauses) <= Cardinality(d.clauses)
+              semV == [clauses |-> cs, fail |-> sem.fail]
+          IN IF \A d \in cand : Cardinality(cs) <= Cardinality(d.clauses) THEN semV
+             ELSE CHOOSE c \in cand : \A d \in cand : Cardinality(c.clauses) <= Cardinality(d.clauses)
 
 Verdict(rec) == VerdictFull(rec).clauses
 
